@@ -54,6 +54,7 @@ CFGS = {
     "ReplayLifeGaps": rep(LIFE, MaxSeq="3", MaxSaves="5", MaxAcks="5", MaxNotify="5", MaxEnds="6", Gaps=GAPS),
     # ---- witness generation (bin/mkwitness substitutes @TARGET@)
     "WitData": wit(DATA, Savers='{"p", "c"}', MaxSaves="3", MaxAcks="3"),
+    "WitData2": wit(DATA, MaxCrash="0", MaxSaves="2", MaxAcks="2", MaxGen="1"),
     "WitGen": wit(GEN, MaxAcks="2", MaxSaves="1"),
     "WitLifeN": wit(LIFE, MaxNotify="2", MaxEnds="0", MaxSaves="0", MaxAcks="0", Kinds="{}", AllowClose="FALSE", AutoCkpt="FALSE"),
     "WitLifeC": wit(LIFE, MaxNotify="1", MaxEnds="0", MaxSaves="1", MaxAcks="1", Hold="TRUE"),
